@@ -15,5 +15,5 @@ worker() {
 }
 export -f worker
 : > $OUT
-for w in refactors/wave*/; do for pd in $w/C*/R*/; do [ -f $pd/patch.diff ] && echo "$(basename $w)/$(basename $(dirname $pd))-$(basename $pd) $pd/patch.diff"; done; done | xargs -P $J -L 1 bash -c 'worker "$@"' _ >> $OUT
+for w in ${WAVES:-refactors/wave*/}; do for pd in $w/C*/R*/; do [ -f $pd/patch.diff ] && echo "$(basename $w)/$(basename $(dirname $pd))-$(basename $pd) $pd/patch.diff"; done; done | xargs -P $J -L 1 bash -c 'worker "$@"' _ >> $OUT
 echo "refactorings against all checks: $(grep -c ' quiet' $OUT) quiet, $(grep -c ' ALARM' $OUT) with an alarm"
